@@ -7,7 +7,9 @@ CONSTANTS
   UseD = FALSE
   StartModes <- StartAll
   FixD5 = TRUE
-  FixD6 = FALSE
+  FixInit = FALSE
+  FixDetach = FALSE
+  FixUpdater = FALSE
   CfgOK <- CfgOne
 SPECIFICATION MCSpec
 VIEW View
